@@ -114,12 +114,12 @@ def reproducibility_failures(rng, build, n, seed, first):
     m1.draw_sample(n + 1, random_state=seed ^ 5)          # earlier draws on the same object: another size,
     m1.draw_sample(n, random_state=seed ^ 3)              # the same size with another seed
     again = np.asarray(m1.draw_sample(n, random_state=seed))
-    if not np.array_equal(first, again):
+    if not np.array_equal(first, again, equal_nan=True):
         bad.append(("reproduces_on_second_object_after_earlier_draw",
                     f"int seed {seed}: draw on a second model object after an earlier draw differs from the first draw"))
     g1 = np.asarray(m1.draw_sample(n, random_state=np.random.default_rng(seed)))
     g2 = np.asarray(m2.draw_sample(n, random_state=np.random.default_rng(seed)))
-    if g1.shape != first.shape or not np.array_equal(g1, g2):
+    if g1.shape != first.shape or not np.array_equal(g1, g2, equal_nan=True):
         bad.append(("generator_reproduces_across_objects",
                     f"identically seeded Generators (seed {seed}) on two model objects give different samples"))
     for t in seed_partners(rng, seed):
@@ -606,28 +606,54 @@ def gen_ext_cases(rng, thorough):
                "rs": str(rng.choice(["int", "generator", "none"])), "chain": cond is not None}
 
 
+def ext_domain_status(m, x):
+    """dimension by dimension (conditioning columns come first): "ok" if every row's parameters are finite, positive
+    where required and every sampled value is finite; "out-of-domain" if some row's parameters (evaluated here from the
+    finite conditioning values) leave the domain, e.g. exp() overflow far in a tail - then there is no law to compare
+    with; otherwise the detail of the failure (finite, in-domain parameters but a non-finite sample value)"""
+    for i, d in enumerate(m.dims):
+        if d["cond"] is not None:
+            for name, v in m.param_rows(i, x[:, d["cond"]]).items():
+                v = np.asarray(v, dtype=float)
+                if not np.all(np.isfinite(v)) or np.any(np.abs(v) > 1e6) or \
+                        ((d["family"], name) not in LOCATION | ALWAYS_FIXED and np.any(v <= 0)):
+                    return "out-of-domain"
+        if not np.all(np.isfinite(x[:, i])):
+            return f"dimension {i} ({d['family']}): non-finite values in the sample although every row's parameters are valid"
+    return "ok"
+
+
 def ext_failures(ck, m, model, n, seed, rs_kind):
     bad = []
     if rs_kind == "none":
-        bad, x = none_failures(lambda r: model.draw_sample(n, random_state=r), (n, m.n_dim))
-        ok_shape = not bad or bad[0][0] == "none_draws_differ"
+        a = np.asarray(model.draw_sample(n, random_state=None))
+        x = np.asarray(model.draw_sample(n, random_state=None))
+        ok_shape = a.shape == (n, m.n_dim) and x.shape == (n, m.n_dim)
+        if not ok_shape:
+            bad.append(("none_shape", f"random_state=None: shape {a.shape} / {x.shape}, expected {(n, m.n_dim)}"))
+        elif np.array_equal(a, x, equal_nan=True):
+            bad.append(("none_draws_differ", f"two draws with random_state=None are identical: {a.ravel()[:4].tolist()}"))
     else:
         rs = seed if rs_kind == "int" else np.random.default_rng(seed)
         x = np.asarray(model.draw_sample(n, random_state=rs))
         ok_shape = x.shape == (n, m.n_dim)
         if not ok_shape:
             bad.append(("shape_n_by_ndim", f"shape {x.shape} expected {(n, m.n_dim)}"))
-        elif not np.all(np.isfinite(x)):
-            bad.append(("sample_finite", "non-finite values in the sample of a model with valid parameters"))
-    if ok_shape and n >= 1000 and np.all(np.isfinite(x)):
-        bad += pit_failures(ck, ext_pit(m, model, x), m.cond, x)
-        ck.count("D_statistics")
+    if ok_shape:
+        status = ext_domain_status(m, x)
+        if status == "out-of-domain":
+            ck.count("D_parameters_out_of_domain_on_sample")
+        elif status != "ok":
+            bad.append(("sample_finite", status))
+        elif n >= 1000:
+            bad += pit_failures(ck, ext_pit(m, model, x), m.cond, x)
+            ck.count("D_statistics")
     if ok_shape and rs_kind != "none":
         first = x if rs_kind == "int" else np.asarray(model.draw_sample(n, random_state=seed))
         if rs_kind == "generator" and not np.array_equal(
-                x, np.asarray(model.draw_sample(n, random_state=np.random.default_rng(seed)))):
+                x, np.asarray(model.draw_sample(n, random_state=np.random.default_rng(seed))), equal_nan=True):
             bad.append(("same_seed_reproduces", f"identically seeded Generator ({seed}), same object"))
-        if not np.array_equal(first, np.asarray(model.draw_sample(n, random_state=seed))):
+        if not np.array_equal(first, np.asarray(model.draw_sample(n, random_state=seed)), equal_nan=True):
             bad.append(("same_seed_reproduces", f"int seed {seed}, same object"))
         bad += reproducibility_failures(np.random.default_rng(seed), m.build, n, seed, first)
     return bad
@@ -641,6 +667,10 @@ def process_ext(ck, case):
     ck.count("D_rs=" + rs_kind)
     ck.count("D_n=" + (str(n) if n <= 3 else "large"))
     ck.count(f"D_n_dim={m.n_dim}")
+    if "role" in case:
+        ck.count(f"D_statistics_of={case['must']}/{case['role']}")
+    if case.get("chain"):
+        ck.count("D_small_n_chain")
     for i, d in enumerate(m.dims):
         ck.count("D_family=" + d["family"] + ("/conditional" if d["cond"] is not None else ""))
         if d["cond"] is not None and m.dims[d["cond"]]["family"] in REAL_VALUED:
